@@ -305,7 +305,6 @@ func (s *Sim) restoredCheck() {
 	}
 }
 
-
 // ---------------------------------------------------------------- crash points (C21)
 
 // CrashProxy wraps a storage hook: the first Limit storage writes are forwarded, every later one is
